@@ -327,6 +327,12 @@ func mergeScalar(guards []*Term, vals []value) (value, bool) {
 	if k == types.Invalid {
 		return nil, false
 	}
+	// Only flags and bytes are merged into ite terms. Merging wider integers would turn loop
+	// counters and indices (binary searches, cursors) into symbolic values that then have to be
+	// concretised through the solver; for those an ordinary fork is cheaper.
+	if k != types.Bool && k != types.Uint8 && k != types.Int8 {
+		return nil, false
+	}
 	for _, v := range vals {
 		if kindOfValue(v) != k {
 			return nil, false
